@@ -1359,6 +1359,12 @@ func Run(t *tr.W, thorough bool) {
 	} else {
 		tickBudget = 45 * budget
 	}
+	if os.Getenv("VERIF_SEARCH") == "1" {
+		// bin/check's second pass (a tie is broken and the oracle was quiet): bounded so that a failing quick run stays
+		// well under two minutes; ~10x the quick histories, few real-time retry ticks
+		ncases = 2600
+		tickBudget = 120
+	}
 	ticks := 0
 	std := func(name string, s func(*H)) caseCfg {
 		return caseCfg{name: name, lateFrom: 0, initLen: 5, startH: 1, wa: []int{1, 2}, wi: []inDef{{outp{extBase, 0}, 5}}, script: s}
